@@ -2912,12 +2912,17 @@ def rule_c08_structure(ctx, prog, rule="R19"):
         for _ in range(3):
             if isinstance(e, tuple) and e[0] == "call" and e[1] in ("from_usize", "unwrap", "expect") and e[3]:
                 e = unwrap_try(e[3][0])
+        if isinstance(e, tuple) and e[0] == "call" and e[1] == "ncols" and len(e[3]) == 1 and ds(e[3][0])[:2] == ("param", 1):
+            return True       # ncols() of the 2-D receiver is len_of(Axis(1))
         return isinstance(e, tuple) and e[0] == "call" and e[1] == "len_of" and ds(e[3][0])[:2] == ("param", 1) and is_axis1(e[3][1])
     if ok1:
         v = ds(sv[0][1])
         centred = gram = denom = False
         detail = "success value `%s`" % fmt(v)[:160]
-        if isinstance(v, tuple) and v[0] == "call" and v[1] in ("mapv_into", "mapv", "map") and len(v[3]) == 2:
+        if isinstance(v, tuple) and v[0] == "mut" and len(v) == 3 and v[2] == 0 and isinstance(v[1], tuple) and v[1][0] == "call" \
+                and v[1][1] == "mapv_inplace":
+            v = ds(v[1])          # the array after `m.mapv_inplace(f)` is `m.mapv_into(f)`
+        if isinstance(v, tuple) and v[0] == "call" and v[1] in ("mapv_into", "mapv", "map", "mapv_inplace") and len(v[3]) == 2:
             m = ds(v[3][0])
             cb, ups = closure_of(prog, v[3][1])
             if cb is not None:
@@ -2949,6 +2954,8 @@ def rule_c08_structure(ctx, prog, rule="R19"):
             if isinstance(e, tuple) and e[:2] == ("param", 2):
                 return s_
             if isinstance(e, tuple) and e[0] == "call" and e[1] == "len_of" and len(e[3]) == 2 and ds(e[3][0])[:2] == ("param", 1) and is_axis1(e[3][1]):
+                return 5
+            if isinstance(e, tuple) and e[0] == "call" and e[1] == "ncols" and len(e[3]) == 1 and ds(e[3][0])[:2] == ("param", 1):
                 return 5
             return None
         return leaf
